@@ -1142,6 +1142,9 @@ def check_batch(ctx, descs, model_ok, stats):
         spec_evs = parse_events(spec_out[i][1:], int)
         real = run_real(d['lights'], d['source'], d['pop'])
         stats['pop:' + d['pop']] += 1
+        for evs in real['events'].values():
+            for e in evs:
+                stats['observed messages:' + {'S': 'colour', 'Z': 'zone', 'M': 'tile'}.get(e[0], 'other')] += 1
         stats['domain:' + ('inside' if in_domain else 'outside')] += 1
         if d['edge'] or not in_domain:
             stats['outside-domain behaviour:' + ('rejected' if not real['parse_ok'] else 'script aborted' if real['aborted'] else 'ran to the end')] += 1
@@ -1266,6 +1269,12 @@ def run(ctx):
     ctx.extra['matrix_sizes_distinct'] = len(sizes)
     ctx.extra['matrix_sizes_top'] = dict(sizes.most_common(8))
     ctx.extra['run_stats'] = dict(sorted(stats.items()))
+    ctx.extra['outside_domain_note'] = (
+        'observed on the implementation and reproduced by the model: a non-empty rectangle with a number >= extent or '
+        '< -extent aborts the script with IndexError (nothing of the block is transmitted, later statements are lost); '
+        'numbers in [-extent, 0) count from the end (row -1 = last row); a reversed range colours nothing and raises '
+        'nothing even when its numbers are far outside; negative zone numbers are clamped to 0 by param_16; a float zone '
+        'end exactly half way between two integers is sent as round(b + 1)')
     ctx.extra['model_shape_flags'] = None
     if model_ok:
         res = common.run_cases('c15shape', 'From Bardolph Require Import Run.C15Model.', ['Eval vm_compute in model_shape.\n'])
